@@ -93,7 +93,7 @@ Definition tok_obs (t : token) : tuple :=
 Definition lex_obs (plus : bool) (src : string) : list tuple :=
   let (ts, fin) := lex_all plus src in
   match fin with
-  | FEnd p after => map tok_obs ts ++ [10 :: end_code :: ser_pos p ++ [0]; [11; t_off after]]
+  | FEnd p after => map tok_obs ts ++ [10 :: end_code :: ser_pos p ++ [2]; [11; t_off after]]
   | FErr e _ => [12 :: le_class e :: ser_pos (le_pos e)]
   | FFuel => [[99]]
   end.
